@@ -260,7 +260,7 @@ def handle (req : Sexp) : Sexp :=
     -- the hypotheses and the token-level reading of `parse_toks_roundtrip` (Props/C06b) on a concrete text: is the parser's
     -- tree `printable`; does the lexer make `Raw.toks` of the printed form (kind and text of every token; word tokens not
     -- glued to a preceding word character); does the parser read `Raw.toks` back to the tree
-    let key (t : Tok) : (TokKind × String × Bool) := (t.kind, t.text, t.kind == TokKind.word && t.afterWord)
+    let key := tokKey      -- the key of `renders_sim` / `roundtrip_of_scanned` (Props/C01c)
     let check (r : Raw) (printed : Except LexErr (List Tok)) : Sexp :=
       let toksEq := match printed with | .ok ts => ts.map key == r.toks.map key | .error _ => false
       let back := match parseExpressionToks r.toks with | .ok r' => (match build r, build r' with | .ok e, .ok e' => e == e' | _, _ => false) | .error _ => false
